@@ -5,27 +5,33 @@ import RulioModel.Gen.C13
 
 A thin model of the `State` interface *with its lock*: every call of a `State` method (Add, Rem, Get, Search,
 FindRules, Count) first acquires the state's RW lock (blocking forever = `hang` when a dead request still holds
-it), runs the sequential model of `RulioModel/State.lean`, and releases the lock — except when the body panics
-and the method does not `defer` its unlock (read from the table extracted from the Go source,
-`C13Gen.lockUses`): then the lock stays held by the dead request. The `Location` API is restated over these
-calls (same guards, same helpers as `RulioModel/Loc.lean`), with panics and hangs propagating like in Go
-(an error of a guard's property read is swallowed, a panic or a hang is not). -/
+it), runs the sequential model of the method, and releases the lock — except when the body panics and the method
+does not `defer` its unlock (read from the table extracted from the Go source, `C13Gen.lockUses`): then the lock
+stays held by the dead request. The `Location` API is restated over these calls (same guards, same helpers as
+`RulioModel/Loc.lean`), with panics and hangs propagating like in Go (an error of a guard's property read is
+swallowed, a panic or a hang is not).
+
+This file describes the tree AFTER the repair of the five defects C13-getrulepatterns-panic,
+C13-getrulepatterns-scheduled, C13-addrule-null-pattern, C13-expiry-search-leaks-read-lock and
+C13-linear-bad-rule-panic: `GetRulePatterns` answers "no patterns" for a `when` (or `when.pattern`) that is not a
+map, `IndexedState.Add` and `IndexedState.Search` release their lock by `defer`, `LinearState.doFindRules` skips a
+`rule` value that is not a map. No input-reachable panic is left inside a State method; what a panic inside one
+WOULD do to the lock is still modelled, through a fault oracle (`KLoc.fault`), so that the lock discipline can be
+stated for every hypothetical panic. -/
 
 namespace C13
 
 /-! ## 1. Panic sites and the classification of the extracted table -/
 
-/-- the places where a public operation can panic on the unchanged tree -/
+/-- the places where a public operation can panic -/
 inductive PanicSite where
-  | getRulePatterns       -- core/state_indexed.go GetRulePatterns: `eventPattern.(map[string]interface{})`, `p.(map[string]interface{})`
-  | linearFindRules       -- core/state_linear.go LinearState.doFindRules: `panic(fmt.Errorf("rule %#v bad type", rule))`
+  | unlisted              -- hypothetical: a panic inside a State method at a place that is no row of the table (injected by `KLoc.fault`)
   | listRulesNil          -- core/location.go Location.ListRules: `sr.Found` of a nil *SearchResults (no assertion: outside the table)
   | serviceUriNotString   -- service/service.go Service.ProcessRequest: `u.(string)`
 deriving DecidableEq, Repr
 
 def PanicSite.name : PanicSite → String
-  | .getRulePatterns => "GetRulePatterns"
-  | .linearFindRules => "LinearState.doFindRules"
+  | .unlisted => "(unlisted)"
   | .listRulesNil => "Location.ListRules"
   | .serviceUriNotString => "Service.ProcessRequest"
 
@@ -78,10 +84,7 @@ def accounted : List (C13Gen.Site × Cls) := [
   (⟨"core/patternindex.go", "ThingSlice.Less", "assert", "a[j].(int)"⟩, .safe "SortValues sorts only after AsThingSlice/IsSortable established that all elements have the type code of a[0]"),
   (⟨"core/patternindex.go", "ThingSlice.Less", "assert", "a[j].(string)"⟩, .safe "SortValues sorts only after AsThingSlice/IsSortable established that all elements have the type code of a[0]"),
   (⟨"core/state.go", "maybeInjectId", "panic", "panic(\"overwrite\")"⟩, .unreachable "SystemParameters.IdInjectionTime is InjectIdNever in both parameter sets of vars.go (configuration, not request data)"),
-  (⟨"core/state_indexed.go", "GetRulePatterns", "assert", "eventPattern.(map[string]interface{})"⟩, .modelled .getRulePatterns),
-  (⟨"core/state_indexed.go", "GetRulePatterns", "assert", "p.(map[string]interface{})"⟩, .modelled .getRulePatterns),
   (⟨"core/state_linear.go", "LinearState.doFindRules", "assert", "when.(Map)"⟩, .safe "under `case Map, map[string]interface{}` after the map[string]interface{} assertion failed"),
-  (⟨"core/state_linear.go", "LinearState.doFindRules", "panic", "panic(fmt.Errorf(\"rule %#v bad type\", rule))"⟩, .modelled .linearFindRules),
   (⟨"core/util.go", "MustMap", "panic", "panic(err)"⟩, .unreachable "ParseMap always returns a nil error; MustMap is used by tests and examples"),
   (⟨"core/util.go", "Profile", "panic", "panic(err)"⟩, .outOfScope "profiling helper, called by no operation"),
   (⟨"core/util.go", "Profile", "panic", "panic(err)"⟩, .outOfScope "profiling helper, called by no operation"),
@@ -110,7 +113,9 @@ def accounted : List (C13Gen.Site × Cls) := [
 
 /-- the lock acquisitions the model knows, in the extractor's order: (file, function, lock call, deferred release?) -/
 /- (the eight `cacheMutex` sections of the rule-cache helpers added by fix 35f4d57 release explicitly, not by `defer`:
-   their bodies are one map read, write or delete on a non-nil map and cannot panic) -/
+   their bodies are one map read, write or delete on a non-nil map and cannot panic;
+   `IndexedState.Add` holds its lock inside a function literal whose first statements are `s.slock` / `defer s.sunlock`:
+   the extractor attributes both to the enclosing method) -/
 def lockTable : List C13Gen.LockUse := [
   ⟨"core/location.go", "Location.Control", "loc.RLock()", false⟩,
   ⟨"core/location.go", "Location.IsReadOnly", "loc.RLock()", false⟩,
@@ -118,14 +123,14 @@ def lockTable : List C13Gen.LockUse := [
   ⟨"core/location.go", "Location.SetReadOnly", "loc.Lock()", false⟩,
   ⟨"core/location.go", "Location.Update", "loc.updatedMutex.Lock()", false⟩,
   ⟨"core/location.go", "Location.Updated", "loc.updatedMutex.RLock()", false⟩,
-  ⟨"core/state_indexed.go", "IndexedState.Add", "s.slock(false)", false⟩,
+  ⟨"core/state_indexed.go", "IndexedState.Add", "s.slock(false)", true⟩,
   ⟨"core/state_indexed.go", "IndexedState.Clear", "s.slock(false)", true⟩,
   ⟨"core/state_indexed.go", "IndexedState.Count", "s.slock(true)", false⟩,
   ⟨"core/state_indexed.go", "IndexedState.Delete", "s.slock(false)", true⟩,
   ⟨"core/state_indexed.go", "IndexedState.IsLoaded", "s.slock(true)", false⟩,
   ⟨"core/state_indexed.go", "IndexedState.Load", "s.slock(false)", true⟩,
   ⟨"core/state_indexed.go", "IndexedState.Rem", "s.slock(false)", true⟩,
-  ⟨"core/state_indexed.go", "IndexedState.Search", "s.slock(true)", false⟩,
+  ⟨"core/state_indexed.go", "IndexedState.Search", "s.slock(true)", true⟩,
   ⟨"core/state_indexed.go", "IndexedState.cacheRule", "s.cacheMutex.Lock()", false⟩,
   ⟨"core/state_indexed.go", "IndexedState.cachedRule", "s.cacheMutex.Lock()", false⟩,
   ⟨"core/state_indexed.go", "IndexedState.doFindRules", "s.slock(true)", true⟩,
@@ -152,7 +157,266 @@ def lockTable : List C13Gen.LockUse := [
   ⟨"core/state_linear.go", "LinearState.uncacheRules", "s.cacheMutex.Lock()", false⟩
 ]
 
-/-! ## 2. The state lock -/
+/-! ## 2. The sequential State model of the repaired source
+
+`RulioModel/State.lean` / `Fact.lean` (shared with the other properties) keep an explicit `"panic"` error where the
+unrepaired `GetRulePatterns` and `LinearState.doFindRules` panicked. The functions below restate exactly the functions
+on those two paths with the repaired behaviour; everything else (PrepareFact, ExtractRule, the pattern and term indexes,
+the whole linear remove/search family) is the shared model. On documents and stores the old sites cannot be reached from,
+the two readings coincide by construction (same text, `getRulePattern r = .ok (getRulePatternR r)`). -/
+
+/-- `GetRulePatterns` (repaired): the rule's event pattern; `none` = "no patterns": no `when`, a `when` that is not a
+map, or a `when.pattern` that is not a map (JSON `null` included) -/
+def getRulePatternR (rule : Obj) : Option Obj :=
+  match rule.get? "when" with
+  | some (.obj w) =>
+    match Obj.get? w "pattern" with
+    | none => some w
+    | some (.obj p) => some p
+    | some _ => none
+  | _ => none
+
+/-- `unindexRule`: nothing to remove when there are no patterns -/
+def unindexRuleR (s : St) (id : String) (rule : Obj) : Except LErr St :=
+  match getRulePatternR rule with
+  | none => .ok s
+  | some pat =>
+    match piRem s.ri pat id with
+    | (_, some e) => .error (perr e)   -- NB: Go keeps the partially modified trie; the error aborts the op
+    | (ri, none) => .ok { s with ri := ri }
+
+/-- `indexRule`: "No 'when' in rule." (a SyntaxError) when there are no patterns.
+Returns the state even on error (the trie may have been partially extended). -/
+def indexRuleR (s : St) (id : String) (rule : Obj) : St × Option LErr :=
+  match getRulePatternR rule with
+  | none => (s, some "syntax")
+  | some pat =>
+    let (ri, e) := piAdd s.ri pat id
+    ({ s with ri := ri }, e.map perr)
+
+/-- what `add` does first when the id is already stored: the previous rule's pattern leaves the index -/
+def unindexPreviousR (s : St) (id : String) : Except LErr (St × Option Obj) :=
+  match amGet s.facts id with
+  | none => .ok (s, none)
+  | some prev =>
+    match extractRule prev false with
+    | .ok (some old, _) => (unindexRuleR s id old).map (fun s' => (s', some old))
+    | _ => .ok (s, none)
+
+/-- the index part of `IndexedState.add`: a rule body without `schedule` must be indexable; when it is rejected the rule it
+would have replaced goes back into the index -/
+def indexNewR (s : St) (id : String) (rule : Option Obj) (replaced : Option Obj) : St × Option LErr :=
+  match rule with
+  | some r =>
+    if Obj.has r "schedule" then (s, none) else
+    match indexRuleR s id r with
+    | (s1, none) => (s1, none)
+    | (s1, some e) =>
+      (match replaced with
+       | some old => if Obj.has old "schedule" then (s1, some e) else ((indexRuleR s1 id old).1, some e)
+       | none => (s1, some e))
+  | none => (s, none)
+
+/-- `IndexedState.add` (memory only). Returns the new state even when it fails half-way. -/
+def iaddR (s : St) (given : String) (x : Obj) (now : Int) : St × Except LErr (String × Obj) :=
+  match prepareFact given s.freshId x now with
+  | .error e => (s, .error e)
+  | .ok (id, fact, x') =>
+    let s := if given == "" && id == s.freshId then { s with fresh := s.fresh + 1 } else s
+    match extractRule fact false with
+    | .error e => (s, .error e)
+    | .ok (rule, fact) =>
+      match unindexPreviousR s id with
+      | .error e => (s, .error e)
+      | .ok (s, replaced) =>
+        match indexNewR s id rule replaced with
+        | (s, some e) => (s, .error e)
+        | (s, none) =>
+          let ti := (extractTerms fact).foldl (fun ti t => TI.add ti t id) s.ti
+          ({ s with ti := ti, facts := amSet s.facts id fact }, .ok (id, x'))
+
+/-- `IndexedState.Add`: memory first, then the prepared fact goes to storage -/
+def iAddR (s : St) (given : String) (x : Obj) (now : Int) : St × Except LErr String :=
+  match iaddR s given x now with
+  | (s1, .error e) => (s1, .error e)
+  | (s1, .ok (id, _)) =>
+    ({ s1 with store := amSet s1.store id (.obj ((amGet s1.facts id).getD [])) }, .ok id)
+
+/-- the rule part of `IndexedState.rem`: the stored rule (if any) leaves the pattern index -/
+def unindexOfR (s : St) (id : String) (fact : Obj) : Except LErr St :=
+  match (match extractRule fact false with | .ok (r, _) => r | .error _ => none : Option Obj) with
+  | some r => unindexRuleR s id r
+  | none => .ok s
+
+/-- the memory/storage part of `IndexedState.rem` -/
+def idelR (s1 : St) (id : String) (fact : Obj) : St :=
+  { s1 with facts := amErase s1.facts id,
+            ti := (extractTerms fact).foldl (fun ti t => TI.rem ti t id) s1.ti,
+            store := amErase s1.store id }
+
+/-- the candidate ids of an indexed search (`SearchForIDs`: no terms = every stored fact) -/
+def candsR (s : St) (p : Obj) : Except LErr (List String) :=
+  if (extractTerms p).isEmpty then .ok (s.facts.map (·.1)) else TI.search s.ti (extractTerms p)
+
+mutual
+/-- `IndexedState.rem` with its cascade; `fuel` bounds the recursion depth (see C08) -/
+def iremR (fuel : Nat) (s : St) (id : String) (now : Int) : St × Except LErr Bool :=
+  match fuel with
+  | 0 => (s, .error "fuel")
+  | fuel + 1 =>
+    match amGet s.facts id with
+    | some fact =>
+      (match unindexOfR s id fact with
+       | .error e => (s, .error e)
+       | .ok s1 =>
+         match idepsR fuel (idelR s1 id fact) id now with
+         | (s3, .error e) => (s3, .error e)
+         | (s3, .ok _) => (s3, .ok true))
+    | none =>
+      match idepsR fuel s id now with
+      | (s3, .error e) => (s3, .error e)
+      | (s3, .ok _) => (s3, .ok false)
+/-- `deleteDependencies`: search `{deleteWith:[id]}`, then `rem` each result found -/
+def idepsR (fuel : Nat) (s : St) (id : String) (now : Int) : St × Except LErr Unit :=
+  match fuel with
+  | 0 => (s, .error "fuel")
+  | fuel + 1 =>
+    if isVar id then (s, .ok ()) else   -- such an id would be a pattern variable
+    match isearchR fuel s [("deleteWith", .arr [.str id])] now with
+    | (s1, .error e) => (s1, .error e)
+    | (s1, .ok found) => iremAllR fuel s1 (found.map (·.1)) now
+def iremAllR (fuel : Nat) (s : St) (ids : List String) (now : Int) : St × Except LErr Unit :=
+  match fuel with
+  | 0 => (s, .error "fuel")
+  | fuel + 1 =>
+    match ids with
+    | [] => (s, .ok ())
+    | i :: rest =>
+      match iremR fuel s i now with
+      | (s1, .error e) => (s1, .error e)
+      | (s1, .ok _) => iremAllR fuel s1 rest now
+/-- `IndexedState.search`: term-index candidates, expiry (purging, cascading), re-match -/
+def isearchR (fuel : Nat) (s : St) (pattern : Obj) (now : Int) : St × Except LErr (List (String × Obj × List Bs)) :=
+  match fuel with
+  | 0 => (s, .error "fuel")
+  | fuel + 1 =>
+    match candsR s pattern with
+    | .error e => (s, .error e)
+    | .ok ids => isearchLoopR fuel s pattern ids now []
+def isearchLoopR (fuel : Nat) (s : St) (pattern : Obj) (ids : List String) (now : Int)
+    (acc : List (String × Obj × List Bs)) : St × Except LErr (List (String × Obj × List Bs)) :=
+  match fuel with
+  | 0 => (s, .error "fuel")
+  | fuel + 1 =>
+    match ids with
+    | [] => (s, .ok acc)
+    | id :: rest =>
+      match amGet s.facts id with
+      | none => isearchLoopR fuel s pattern rest now acc
+      | some fact =>
+        match checkExpiration fact now with
+        -- expire: the purge's error (and an error of checkExpiration) is logged and ignored
+        | .ok true => isearchLoopR fuel (iremR fuel s id now).1 pattern rest now acc
+        | _ =>
+          match matchesJ (.obj pattern) (.obj fact) with
+          | .error e => (s, .error e)
+          | .ok bss => isearchLoopR fuel s pattern rest now (if bss.isEmpty then acc else acc ++ [(id, fact, bss)])
+end
+
+def iGetR (s : St) (id : String) (now : Int) : St × Except LErr Obj :=
+  match amGet s.facts id with
+  | none => (s, .error "notFound")
+  | some fact =>
+    match checkExpiration fact now with
+    | .error e => (s, .error e)
+    | .ok true =>
+      (match iremR s.fuel s id now with
+       | (s1, .error e) => (s1, .error e)
+       | (s1, .ok _) => (s1, .error "notFound"))
+    | .ok false => (s, .ok fact)
+
+/-- the candidate loop of `IndexedState.doFindRules`: expiry → lost rule / rule body errors -/
+def ifindLoopR (now : Int) (fuel : Nat) (s : St) (ids : List String) (acc : List (String × Obj)) :
+    St × Except LErr (List (String × Obj)) :=
+  match fuel with
+  | 0 => (s, .error "fuel")
+  | fuel + 1 =>
+    match ids with
+    | [] => (s, .ok acc)
+    | id :: rest =>
+      let fact? := amGet s.facts id
+      match checkExpiration (fact?.getD []) now with
+      | .ok true => ifindLoopR now fuel (iremR s.fuel s id now).1 rest acc
+      | _ =>
+        match fact? with
+        | none => (s, .error "lostRule")
+        | some f =>
+          match extractRule f true with
+          | .error e => (s, .error e)
+          | .ok (some body, _) => ifindLoopR now fuel s rest (acc ++ [(id, body)])
+          | .ok (none, _) => (s, .error "ruleBodyMissing")
+
+/-- `doFindRules` (indexed): pattern-index candidates, then the loop -/
+def iFindRulesR (s : St) (event : Obj) (now : Int) : St × Except LErr (List (String × Obj)) :=
+  match piSearch s.ri event with
+  | .error e => (s, .error (perr e))
+  | .ok ids => ifindLoopR now (ids.length + 1) s ids []
+
+/-- the scan of `LinearState.doFindRules` (repaired): a `rule` value that is not a map is logged and skipped, like a rule
+body whose `when` is not a map -/
+def lfindLoopR (event : Obj) (now : Int) (fuel : Nat) (s : St) (ids : List String) (acc : List (String × Obj)) :
+    St × Except LErr (List (String × Obj)) :=
+  match fuel with
+  | 0 => (s, .error "fuel")
+  | fuel + 1 =>
+    match ids with
+    | [] => (s, .ok acc)
+    | id :: rest =>
+      match amGet s.facts id with
+      | none => lfindLoopR event now fuel s rest acc
+      | some fact =>
+        match fact.get? "rule" with
+        | none => lfindLoopR event now fuel s rest acc
+        | some rule =>
+          match checkExpiration fact now with
+          | .error e => (s, .error e)
+          | .ok true =>
+            (match St.lrem s.fuel s id now with
+             | (s1, .error e) => (s1, .error e)
+             | (s1, .ok _) => lfindLoopR event now fuel s1 rest acc)
+          | .ok false =>
+            match rule with
+            | .obj r =>
+              (match Obj.get? r "when" with
+               | some (.obj w) =>
+                 let pat := (Obj.get? w "pattern").getD (.obj w)
+                 match matchesJ pat (.obj event) with
+                 | .error e => (s, .error e)
+                 | .ok bss => lfindLoopR event now fuel s rest (if bss.isEmpty then acc else acc ++ [(id, r)])
+               | _ => lfindLoopR event now fuel s rest acc)
+            | _ => lfindLoopR event now fuel s rest acc
+
+def lFindRulesR (s : St) (event : Obj) (now : Int) : St × Except LErr (List (String × Obj)) :=
+  lfindLoopR event now (s.facts.length + 1) s (s.facts.map (·.1)) []
+
+/-! kind-dispatching wrappers (the `State` interface) -/
+
+def addK (s : St) (given : String) (x : Obj) (now : Int) : St × Except LErr String :=
+  match s.kind with | .indexed => iAddR s given x now | .linear => s.lAdd given x now
+def remK (s : St) (id : String) (now : Int) : St × Except LErr Bool :=
+  match s.kind with | .indexed => iremR s.fuel s id now | .linear => St.lrem s.fuel s id now
+def getK (s : St) (id : String) (now : Int) : St × Except LErr Obj :=
+  match s.kind with | .indexed => iGetR s id now | .linear => s.lGet id now
+def searchK (s : St) (p : Obj) (now : Int) : St × Except LErr (List (String × Obj × List Bs)) :=
+  match s.kind with | .indexed => isearchR s.fuel s p now | .linear => St.lsearch s.fuel s p now
+def findRulesK (s : St) (ev : Obj) (now : Int) : St × Except LErr (List (String × Obj)) :=
+  match s.kind with | .indexed => iFindRulesR s ev now | .linear => lFindRulesR s ev now
+
+/-! ## 3. The state lock -/
+
+/-- the methods of the `State` interface used by the Location API -/
+inductive Meth where | add | rem | get | search | findRules | count
+deriving DecidableEq, Repr
 
 /-- `free`; `rdead` = a read lock is held by a request that died in a panic; `wdead` = the write lock is -/
 inductive Lock where | free | rdead | wdead
@@ -167,10 +431,18 @@ structure KLoc where
   hooks : Bool := false
   /-- the lock discipline in force: by default the table extracted from the current Go source -/
   locks : List C13Gen.LockUse := C13Gen.lockUses
+  /-- fault oracle: `some s'` = the body of this State method, started on this memory, panics (at a place that is no row
+  of the extracted table: a nil dereference, a runtime error ...) and leaves the memory as `s'`. No input is known to do
+  that to the repaired source, and the model driver runs with the default "never"; the theorems about the lock quantify
+  over every oracle. -/
+  fault : Meth → St → Option St := fun _ _ => none
 
 /-- the location invariant of the property: nobody dead holds the state lock -/
 def Serving (k : KLoc) : Prop := k.lock = .free
 instance (k : KLoc) : Decidable (Serving k) := by unfold Serving; infer_instance
+
+/-- no State method body panics (the situation of every known input on the repaired source) -/
+def FaultFree (k : KLoc) : Prop := ∀ m s, k.fault m s = none
 
 inductive Res (α : Type) where
   | ok (a : α)
@@ -209,10 +481,6 @@ instance : Monad KM where
   pure := KM.pure
   bind := KM.bind
 
-/-- the methods of the `State` interface used by the Location API -/
-inductive Meth where | add | rem | get | search | findRules | count
-deriving DecidableEq, Repr
-
 /-- the Go function that holds the lock of each method -/
 def methName : Kind → Meth → String
   | .indexed, .add => "IndexedState.Add"
@@ -230,8 +498,9 @@ def methName : Kind → Meth → String
 
 def Meth.isWrite : Meth → Bool | .add | .rem => true | _ => false
 
-/-- is the code of the method that can panic executed while its lock is held?
-(`get`: expiry runs after the unlock; `LinearState.Add`: PrepareFact runs before the lock; `Count`: nothing to panic) -/
+/-- is the code of the method that is able to panic (anything beyond one map read) executed while its lock is held?
+(`get`: one map read under the lock, expiry runs after the unlock; `LinearState.Add`: PrepareFact runs before the lock,
+two map writes under it; `Count`: `len` of a map) -/
 def panicUnderLock : Kind → Meth → Bool
   | .indexed, .add | .indexed, .rem | .indexed, .search | .indexed, .findRules => true
   | .linear, .rem | .linear, .search | .linear, .findRules => true
@@ -254,29 +523,26 @@ def blocked (k : KLoc) (write : Bool) : Bool :=
   | .wdead => true
   | .rdead => write || k.wwait
 
-/-- which site a "panic" of the sequential state model stands for -/
-def siteOf : Kind → Meth → PanicSite
-  | .linear, .findRules => .linearFindRules
-  | _, _ => .getRulePatterns
-
 /-- install the state a method returned (a Go object keeps its type: the kind is the location's) -/
 def withSt (k : KLoc) (s : St) : KLoc := { k with loc := { k.loc with st := { s with kind := k.loc.st.kind } } }
 
-/-- one call of a `State` method: acquire (or block forever), run, release unless a panic skips a plain unlock -/
+/-- one call of a `State` method: acquire (or block forever), run, release unless a panic skips a plain unlock.
+The body `f` is the sequential model; it panics exactly when the fault oracle says so. -/
 def kCall {α} (m : Meth) (f : St → St × Except LErr α) : KM α := fun k =>
   if blocked k m.isWrite then
     ({ k with wwait := k.wwait || (m.isWrite && k.lock == .rdead) }, .hang)
   else
-    match f k.loc.st with
-    | (s, .ok a) => (withSt k s, .ok a)
-    | (s, .error e) =>
-      if e == "panic" then
-        let k1 := withSt k s
-        ({ k1 with lock := match leakIn k.locks k.loc.st.kind m with | some l => (if k1.lock == .free then l else k1.lock) | none => k1.lock },
-         .panic (siteOf k.loc.st.kind m))
-      else (withSt k s, .err e)
+    match k.fault m k.loc.st with
+    | some s =>
+      let k1 := withSt k s
+      ({ k1 with lock := match leakIn k.locks k.loc.st.kind m with | some l => (if k1.lock == .free then l else k1.lock) | none => k1.lock },
+       .panic .unlisted)
+    | none =>
+      match f k.loc.st with
+      | (s, .ok a) => (withSt k s, .ok a)
+      | (s, .error e) => (withSt k s, .err e)
 
-/-! ## 3. cron hooks of a sys.System (cron/corehooks.go) -/
+/-! ## 3b. cron hooks of a sys.System (cron/corehooks.go) -/
 
 /-- `getSchedule` + `ScheduleEvent`: `none` = fine, `some e` = the hook fails. Schedules other than the two constants the
 generators use are reported as unsure by the driver. -/
@@ -295,104 +561,45 @@ def addHookErr (fact : Obj) : Option LErr :=
   | .error e => some e
   | .ok s => if s == "" || s == validSchedule then none else some "hook"
 
-/-! ## 3b. Panics inside an expiry purge
-
-`IndexedState.search` and `IndexedState.doFindRules` log and ignore the *error* of the purge of an expired candidate
-(`s.expire`), and the sequential model of `RulioModel/State.lean` ignores every outcome of that purge. A Go panic is not
-an error value: it propagates. The two loops are restated here with that one difference (same results whenever the purge
-does not panic). The purges nested deeper (a cascade's own searches) keep the sequential model's reading. -/
-
-def isearchLoopP (fuel : Nat) (s : St) (pattern : Obj) (ids : List String) (now : Int)
-    (acc : List (String × Obj × List Bs)) : St × Except LErr (List (String × Obj × List Bs)) :=
-  match fuel with
-  | 0 => (s, .error "fuel")
-  | fuel + 1 =>
-    match ids with
-    | [] => (s, .ok acc)
-    | id :: rest =>
-      match amGet s.facts id with
-      | none => isearchLoopP fuel s pattern rest now acc
-      | some fact =>
-        match checkExpiration fact now with
-        | .ok true =>
-          (match St.irem fuel s id now with
-           | (s1, .error e) => if e == "panic" then (s1, .error e) else isearchLoopP fuel s1 pattern rest now acc
-           | (s1, .ok _) => isearchLoopP fuel s1 pattern rest now acc)
-        | _ =>
-          match matchesJ (.obj pattern) (.obj fact) with
-          | .error e => (s, .error e)
-          | .ok bss => isearchLoopP fuel s pattern rest now (if bss.isEmpty then acc else acc ++ [(id, fact, bss)])
-
-def isearchP (s : St) (pattern : Obj) (now : Int) : St × Except LErr (List (String × Obj × List Bs)) :=
-  match s.fuel with
-  | 0 => (s, .error "fuel")
-  | fuel + 1 =>
-    let cands := if (extractTerms pattern).isEmpty then .ok (s.facts.map (·.1)) else TI.search s.ti (extractTerms pattern)
-    match cands with
-    | .error e => (s, .error e)
-    | .ok ids => isearchLoopP fuel s pattern ids now []
-
-def ifindLoopP (now : Int) (fuel : Nat) (s : St) (ids : List String) (acc : List (String × Obj)) :
-    St × Except LErr (List (String × Obj)) :=
-  match fuel with
-  | 0 => (s, .error "fuel")
-  | fuel + 1 =>
-    match ids with
-    | [] => (s, .ok acc)
-    | id :: rest =>
-      let fact? := amGet s.facts id
-      match checkExpiration (fact?.getD []) now with
-      | .ok true =>
-        (match St.irem s.fuel s id now with
-         | (s1, .error e) => if e == "panic" then (s1, .error e) else ifindLoopP now fuel s1 rest acc
-         | (s1, .ok _) => ifindLoopP now fuel s1 rest acc)
-      | _ =>
-        match fact? with
-        | none => (s, .error "lostRule")
-        | some f =>
-          match extractRule f true with
-          | .error e => (s, .error e)
-          | .ok (some body, _) => ifindLoopP now fuel s rest (acc ++ [(id, body)])
-          | .ok (none, _) => (s, .error "ruleBodyMissing")
-
-def ifindRulesP (s : St) (event : Obj) (now : Int) : St × Except LErr (List (String × Obj)) :=
-  match piSearch s.ri event with
-  | .error e => (s, .error (perr e))
-  | .ok ids => ifindLoopP now (ids.length + 1) s ids []
-
-def searchK (s : St) (p : Obj) (now : Int) : St × Except LErr (List (String × Obj × List Bs)) :=
-  match s.kind with | .indexed => isearchP s p now | .linear => St.lsearch s.fuel s p now
-def findRulesK (s : St) (ev : Obj) (now : Int) : St × Except LErr (List (String × Obj)) :=
-  match s.kind with | .indexed => ifindRulesP s ev now | .linear => s.lFindRules ev now
-
 /-! ## 4. The Location API over `kCall` -/
 
-def kGet (id : String) (now : Int) : KM Obj := kCall .get (fun s => s.get id now)
+def kGet (id : String) (now : Int) : KM Obj := kCall .get (fun s => getK s id now)
 def kCount : KM Nat := kCall .count (fun s => (s, .ok s.count))
 def kSearch (p : Obj) (now : Int) : KM (List (String × Obj × List Bs)) := kCall .search (fun s => searchK s p now)
 def kFindRules (ev : Obj) (now : Int) : KM (List (String × Obj)) := kCall .findRules (fun s => findRulesK s ev now)
 
-/-- `State.Add` (+ the add hook of a System: it runs inside `add` after the rule index was touched, so a panic wins) -/
+/-- the memory after an `Add` whose cron hook failed. Indexed: the hook runs inside `add` after the rule index was touched —
+the rule stored under the id so far has left the index and is NOT put back (only a failing `indexRule` puts it back), and
+nothing new was indexed (a hook fails on a `rule` that is not a map or carries a bad `schedule`: neither is indexed);
+facts, term index and storage are untouched. Linear: the hook runs after the document went to storage, before memory. -/
+def hookFailedSt (s : St) (id : String) (m : Obj) : St :=
+  match s.kind with
+  | .indexed => (match unindexPreviousR s id with | .ok (s1, _) => s1 | .error _ => s)
+  | .linear => { s with store := amSet s.store id (.obj m) }
+
+/-- `State.Add` (+ the add hook of a System: it sees the prepared fact; its error aborts the add) -/
 def kAdd (id : String) (x : Obj) (now : Int) : KM String := fun k =>
-  if !k.hooks then kCall .add (fun s => s.add id x now) k
+  if !k.hooks then kCall .add (fun s => addK s id x now) k
   else
-    match kCall .add (fun s => s.add id x now) k with
+    match kCall .add (fun s => addK s id x now) k with
     | (k1, .ok a) =>
-      -- the hook sees the prepared fact; its error aborts the add (memory unchanged in the indexed state)
       (match prepareFact id k.loc.st.freshId x now with
-       | .ok (_, fact, _) => (match addHookErr fact with | some e => (k, .err e) | none => (k1, .ok a))
+       | .ok (fid, fact, _) =>
+         (match addHookErr fact with
+          | some e => (withSt k (hookFailedSt k.loc.st fid fact), .err e)
+          | none => (k1, .ok a))
        | .error _ => (k1, .ok a))
     | r => r
 
 /-- `State.Rem` (+ the rem hook of a System: it reads the fact first; a missing fact is its error) -/
 def kRem (id : String) (now : Int) : KM Bool := fun k =>
-  if !k.hooks then kCall .rem (fun s => s.rem id now) k
+  if !k.hooks then kCall .rem (fun s => remK s id now) k
   else
-    match kCall .get (fun s => s.get id now) k with
+    match kCall .get (fun s => getK s id now) k with
     | (k1, .ok fact) =>
       (match getSchedule fact with
        | .error e => (k1, .err e)
-       | .ok _ => kCall .rem (fun s => s.rem id now) k1)
+       | .ok _ => kCall .rem (fun s => remK s id now) k1)
     | (k1, .err e) => (k1, .err e)
     | (k1, .panic s) => (k1, .panic s)
     | (k1, .hang) => (k1, .hang)
@@ -533,9 +740,14 @@ def kSearchRules (c : Ctx) (ev : Obj) (inherited : Bool) (now : Int) : KM (List 
   kRunGuards c now (guardsOf "SearchRules")
   if inherited then kSearchRulesAnc c ev now else klocSearchRules c ev now
 
-/-- a panic inside a nested search (a query's or a condition's pattern) happens in `IndexedState.Search` / `LinearState.search` -/
-def leakNested (k : KLoc) : KLoc :=
-  { k with lock := match leakIn k.locks k.loc.st.kind .search with | some l => (if k.lock == .free then l else k.lock) | none => k.lock }
+/-- does the location's own (inherited) fact search, started now, end in a panic? The State calls it makes (the
+property reads of the guards, then `Search`) and the memories they start on do not depend on the pattern, and neither
+does the fault oracle: one probe stands for every nested search of a query or a rule condition -/
+def nestedPanic (k : KLoc) (c : Ctx) (now : Int) : Option PanicSite := (kSearchFacts c [] true now k).2.site
+
+/-- what a nested search that panicked leaves behind: the lock as that search left it -/
+def leakNested (k : KLoc) (c : Ctx) (now : Int) : KLoc :=
+  { k with lock := (kSearchFacts c [] true now k).1.lock, wwait := (kSearchFacts c [] true now k).1.wwait }
 
 def KM.panicAt {α} (s : PanicSite) : KM α := fun k => (k, .panic s)
 
@@ -572,9 +784,9 @@ def kExecQuery (c : Ctx) (q : J) (now : Int) : KM (List Bs) := fun k =>
   match (do let q' ← parseQuery (4 * sz q + 4) q; execQ (srchOfK k c now) q' [[]] : Except LErr (List Bs)) with
   | .ok bss => (k, .ok bss)
   | .error e =>
-    if e == "panic" then (leakNested k, .panic .getRulePatterns)
-    else if blocked k false && e == "hang" then (k, .hang)
-    else (k, .err e)
+    match (if e == "panic" then nestedPanic k c now else none) with
+    | some site => (leakNested k c now, .panic site)
+    | none => if blocked k false && e == "hang" then (k, .hang) else (k, .err e)
 
 def kQuery (c : Ctx) (q : J) (now : Int) : KM (List Bs) := do
   kRunGuards c now (guardsOf "Query"); kExecQuery c q now
@@ -617,9 +829,9 @@ def kCandidates (c : Ctx) (ev : Obj) (now : Int) : KM (List (String × RuleM × 
 /-- the walk over the dispatched rules: conditions (with their nested searches) and actions -/
 def kWalk (c : Ctx) (ev : Obj) (now : Int) (cands : List (String × RuleM × Bool)) : KM Tree := fun k =>
   let t := processEvent (srchOfK k c now) k.loc.name ev cands
-  if treeHasErr t "panic" then (leakNested k, .panic .getRulePatterns)
-  else if blocked k false && treeHasErr t "hang" then (k, .hang)
-  else (k, .ok t)
+  match (if treeHasErr t "panic" then nestedPanic k c now else none) with
+  | some site => (leakNested k c now, .panic site)
+  | none => if blocked k false && treeHasErr t "hang" then (k, .hang) else (k, .ok t)
 
 /-- `ProcessEvent`. A failure of `FindRules.Do` is the tree's `err` (the Go code returns it as the walk's condition). -/
 def kProcessEvent (c : Ctx) (ev : Obj) (now : Int) : KM Tree := do
@@ -704,22 +916,18 @@ def runAll : List PubOp → KLoc → KLoc × List (PubOp × Res Unit)
     let (k2, rs) := runAll ops k1
     (k2, (op, r) :: rs)
 
-/-! ## 7. Validity predicates used as hypotheses -/
+/-! ## 7. Predicates used in the theorems -/
 
-/-- the document would not make `GetRulePatterns` panic: its rule body (if it is a map) has a map `when` whose
-`pattern` (if any) is a map -/
-def whenOK (fact : Obj) : Bool :=
-  match fact.get? "rule" with
-  | some (.obj r) => (match getRulePattern r with | .error _ => false | .ok _ => true)
-  | _ => true
+/-- the rule body has no event pattern the repaired `GetRulePatterns` would hand out (no `when`, or a `when` /
+`when.pattern` that is not a map): the documents that used to reach the two unchecked assertions are among these -/
+def noPattern (r : Obj) : Bool := (getRulePatternR r).isNone
 
-/-- linear state: a `rule` value that is present is a map -/
-def ruleIsMap (fact : Obj) : Bool :=
-  match fact.get? "rule" with
-  | some (.obj _) | none => true
-  | some _ => false
-
-/-- no stored fact can make a later operation panic -/
-def StoreOK (s : St) : Prop := ∀ p ∈ s.facts, whenOK p.2 = true ∧ (s.kind = .linear → ruleIsMap p.2 = true)
+/-- the documents that made the unrepaired `GetRulePatterns` panic: `when` present and not a map, or a map whose `pattern`
+is present and not a map -/
+def badWhen (r : Obj) : Bool :=
+  match r.get? "when" with
+  | none => false
+  | some (.obj w) => (match Obj.get? w "pattern" with | none => false | some (.obj _) => false | some _ => true)
+  | some _ => true
 
 end C13
